@@ -311,6 +311,10 @@ let run_build (scale : string) (flags : string) (calls : string) : string =
           (match M.hold_fast !b (z_of_string d) with
            | M.Ok b' -> b := b'; cum := !cum + int_of_string d; marks := !cum :: !marks; emit (pr "H:0:%d" (size ()))
            | r -> emit (pr "H:%s:%d" (show_res_code (fun _ -> "0") r) (size ())))
+        | ["I"; sc] ->
+          (match M.builder_init (z_of_string sc) Z.zero with
+           | M.Ok _ -> emit "I:valid-scale-not-modelled"
+           | r -> emit (pr "I:%s:%d" (show_res_code (fun _ -> "0") r) (size ())))
         | ["F"] ->
           let (bytes, b') = M.finish !b in
           b := b';
